@@ -875,6 +875,79 @@ func afterRejected(res *core.Result, r *rand.Rand, caps []*capture, idV, spare *
 	res.Case("after-rejected", true)
 }
 
+// afterHousekeeping: a long-lived router. It accepts an announcement of origin A (sessions for A and the relays come
+// into being), then hears nothing from them for a few minutes while its once-a-minute session cleaner ticks (virtual
+// time hooks), then an announcement of another origin B arrives over the same peer: the authentic one must be accepted
+// with exactly the signed hop records, B's frame carrying the hop records signed for A's announcement must be refused.
+func afterHousekeeping(res *core.Result, r *rand.Rand, caps []*capture, idV, spare *m.Address, rounds int) {
+	done := 0
+	for try := 0; try < rounds*30 && done < rounds; try++ {
+		a := caps[r.IntN(len(caps))]
+		b := caps[r.IntN(len(caps))]
+		if len(b.layers) == 0 || a.origin == b.origin || a.sender.IP != b.sender.IP || a.meshID != b.meshID {
+			continue
+		}
+		done++
+		vc, err := newVictim(idV, []*m.Address{a.sender, spare}, a.ids)
+		if err != nil {
+			res.Inconcl("victim: %v", err)
+			return
+		}
+		vc.ms.DeliverOn(&vmesh.Packet{From: 1, To: 0, Data: a.data}, 0, 1)
+		idle := time.Duration(2+r.IntN(20)) * time.Minute
+		ticks := 1 + r.IntN(3)
+		vc.v.Inst.StateV.VerifAdvanceTime(idle)
+		for k := 0; k < ticks; k++ {
+			vc.v.Inst.StateV.VerifHousekeeping()
+		}
+		hist := fmt.Sprintf("an announcement of %s was handled, then %s without traffic and %d ticks of the session cleaner", a.origin, idle, ticks)
+		wit := map[string]any{"operator": "after-housekeeping", "first_origin": a.origin.String(), "second_origin": b.origin.String(), "case_id": "after-housekeeping"}
+		before := vc.tableKey()
+		if done%2 == 0 {
+			splice := withApx(b, a.apx)
+			if len(a.layers) == 0 {
+				continue
+			}
+			vc.ms.DeliverOn(&vmesh.Packet{From: 1, To: 0, Data: splice}, 0, 1)
+			if len(vc.ms.Panics) > 0 {
+				res.Violate("handler-panic:after-housekeeping", fmt.Sprint(vc.ms.Panics[0]), wit)
+				return
+			}
+			if vc.tableKey() != before {
+				res.Violate("forged-announcement-accepted:splice-other-origin/after-housekeeping", fmt.Sprintf("%s: the frame of origin %s carrying the hop records signed for the other announcement changed the routing table:\n%s", hist, b.origin, vc.tableKey()), wit)
+				return
+			}
+			res.Count("splices_after_housekeeping_refused", 1)
+			continue
+		}
+		vc.ms.DeliverOn(&vmesh.Packet{From: 1, To: 0, Data: b.data}, 0, 1)
+		if len(vc.ms.Panics) > 0 {
+			res.Violate("handler-panic:after-housekeeping", fmt.Sprint(vc.ms.Panics[0]), wit)
+			return
+		}
+		var got *m.RoutingTableEntry
+		es := vc.v.Inst.RouterV.Table().VerifEntries()
+		for i := range es {
+			if es[i].DstIP == b.origin && len(es[i].Path.Hops) == len(b.layers)+2 {
+				got = &es[i]
+			}
+		}
+		if got == nil {
+			res.Violate("authentic-announcement-not-accepted:after-housekeeping", fmt.Sprintf("%s: an authentic announcement of %s (%d hop records) delivered by the same peer added no route", hist, b.origin, len(b.layers)), wit)
+			return
+		}
+		for i, l := range b.layers {
+			h := got.Path.Hops[1+i]
+			if h.Router != l.Router.IP || h.Delay != l.Delay || h.ForwardLabel != l.ForwardLabel || h.ReturnLabel != l.ReturnLabel {
+				res.Violate("authentic-announcement-wrong-route:after-housekeeping", fmt.Sprintf("%s: the route learned from an authentic announcement of %s does not list the signed hop records", hist, b.origin), wit)
+				return
+			}
+		}
+		res.Count("authentic_after_housekeeping_accepted", 1)
+	}
+	res.Case("after-housekeeping", true)
+}
+
 // concurrentSplice: the router's frame handlers run in parallel (one per CPU). While several of them handle
 // genuine announcements of origin Q delivered by peer P, another one receives the frame of origin C carrying the
 // hop records P signed for Q's announcement. Handled alone that splice is refused (splice-other-origin above);
@@ -1018,6 +1091,7 @@ func run(c *core.Ctx) {
 			reannounced(res, r, 1+(w+k)%4)
 		}
 		afterRejected(res, r, caps, ids[s.t.N], ids[s.t.N+1], c.Q(6, 40))
+		afterHousekeeping(res, r, caps, ids[s.t.N], ids[s.t.N+1], c.Q(8, 60))
 		_ = W
 	})
 	res.Sample(map[string]any{"operator": "resigned-outer-over-foreign-inner-chain", "desc": "a relay that holds a real key signs its own hop record (context of announcement A) over the hop chain of announcement B"})
